@@ -1425,7 +1425,11 @@ func (c *FnCtx) truncDiv(a, b *Term) *Term {
 		nb := f.Neg(b)
 		return f.Neg(f.Ite(f.Ge(a, f.Int(0)), f.Div(a, nb), f.Neg(f.Div(f.Neg(a), nb))))
 	}
-	return nil
+	// sign of the divisor unknown: case split (the divisor is non-zero here)
+	pos := f.Ite(f.Ge(a, f.Int(0)), f.Div(a, b), f.Neg(f.Div(f.Neg(a), b)))
+	nb := f.Neg(b)
+	neg := f.Neg(f.Ite(f.Ge(a, f.Int(0)), f.Div(a, nb), f.Neg(f.Div(f.Neg(a), nb))))
+	return f.Ite(f.Gt(b, f.Int(0)), pos, neg)
 }
 
 func tzOf(t *Term) uint {
